@@ -20,6 +20,7 @@ package props
 // must equal the reference model applied to the same multiset.
 
 import (
+	"bytes"
 	"crypto/sha256"
 	"encoding/hex"
 	"encoding/json"
@@ -524,6 +525,7 @@ func TestC13Workloads(t *testing.T) {
 		}
 		touch := map[string]int{}
 		srvNew, srvBanned := map[[32]byte]bool{}, map[[32]byte]bool{}
+		srvBanRec := map[[32]byte]ref.AuthServer{} // the GCA's ban record per banned key: the list must hold exactly it
 		if preRegistered {
 			for i := 0; i < 3; i++ {
 				as := ref.AuthServer{PublicKey: keyFor(fmt.Sprintf("c13w-peer-%d", i)).Pub, Location: "127.0.0.1", HttpPort: 1}
@@ -611,7 +613,23 @@ func TestC13Workloads(t *testing.T) {
 					continue
 				}
 				var as ref.AuthServer
-				switch rapid.IntRange(0, 2).Draw(t, "srvOp") {
+				switch rapid.IntRange(0, 3).Draw(t, "srvOp") {
+				case 3: // a new peer AND its ban (other location and ports), as two operations: in either order the list ends with the ban record
+					fresh++
+					k := keyFor(fmt.Sprintf("c13w-newpeer-%d", fresh)).Pub
+					first := ref.AuthServer{PublicKey: k, Location: "127.0.0.1", HttpPort: 1, TcpPort: 7, UdpPort: 8}
+					first.Sig = ref.Sign(gca, first.SigningBytes())
+					srvNew[k] = true
+					srvBanned[k] = true
+					touch["server-list"]++
+					work = append(work, c13Work{fmt.Sprintf("POST authorized-servers %x (then banned)", k[:3]), func(S *world.Server) error {
+						st, _, err := S.PostJSON("/api/v1/authorized-servers", world.ToGlowServer(first))
+						if err == nil && st != 200 {
+							return fmt.Errorf("GCA-signed server authorization refused: %d", st)
+						}
+						return err
+					}})
+					as = ref.AuthServer{PublicKey: k, Banned: true, Location: "localhost", HttpPort: 2, TcpPort: 3, UdpPort: 4}
 				case 0: // a new peer
 					fresh++
 					as = ref.AuthServer{PublicKey: keyFor(fmt.Sprintf("c13w-newpeer-%d", fresh)).Pub, Location: "127.0.0.1", HttpPort: 1}
@@ -625,6 +643,9 @@ func TestC13Workloads(t *testing.T) {
 					as = ref.AuthServer{PublicKey: keyFor(fmt.Sprintf("c13w-peer-%d", i)).Pub, Location: "127.0.0.1", HttpPort: 9}
 				}
 				as.Sig = ref.Sign(gca, as.SigningBytes())
+				if as.Banned {
+					srvBanRec[as.PublicKey] = as
+				}
 				touch["server-list"]++
 				work = append(work, c13Work{fmt.Sprintf("POST authorized-servers %x banned=%v", as.PublicKey[:3], as.Banned), func(S *world.Server) error {
 					st, _, err := S.PostJSON("/api/v1/authorized-servers", world.ToGlowServer(as))
@@ -866,8 +887,15 @@ func TestC13Workloads(t *testing.T) {
 				}
 			}
 			for k := range srvNew {
-				if b, ok := got[k]; !ok || b {
-					t.Fatalf("C13: new peer %x missing or banned after the workload", k[:3])
+				if b, ok := got[k]; !ok || b != srvBanned[k] {
+					t.Fatalf("C13: new peer %x after the workload: listed=%v banned=%v, the sequential rules give banned=%v", k[:3], ok, b, srvBanned[k])
+				}
+			}
+			for _, x := range snap.Servers {
+				if rec, ok := srvBanRec[[32]byte(x.PublicKey)]; ok {
+					if !bytes.Equal(world.FromGlowServer(x).Encode(), rec.Encode()) {
+						t.Fatalf("C13: banned server %x is listed as %+v, every sequential order leaves the GCA's ban record %+v (location, ports and signature included)", x.PublicKey[:3], world.FromGlowServer(x), rec)
+					}
 				}
 			}
 		}
